@@ -236,6 +236,9 @@ func run(id, tier string) (code int) {
 		if u.ThoroughOnly && tier != "thorough" {
 			continue
 		}
+		if only := os.Getenv("VERIF_UNITS"); only != "" && !strings.Contains(","+only+",", ","+u.Name+",") {
+			continue // development aid: run a subset of a property's units (evidence then goes to VERIF_EVIDENCE_DIR)
+		}
 		workers := u.Workers[tierIdx(tier)]
 		if workers < 1 {
 			workers = 1
